@@ -348,7 +348,23 @@ func (g *Gen) intExpr(env []binding, d int) r.Val {
 // valuesForm: a form returning two integer values, possibly through value-transparent forms.
 func (g *Gen) valuesForm(env []binding, d int) r.Val {
 	v := r.L(sym("values"), g.Expr(TInt, env, d+1), g.Expr(TInt, env, d+1))
-	switch g.pick("mvwrap", 6) {
+	switch g.pick("mvwrap", 12) {
+	case 6:
+		// all the values of the last form of an or / and are the values of the form
+		g.kind("values-through-or")
+		return r.L(sym("or"), r.L(sym("null"), g.Expr(TInt, env, d+1)), v)
+	case 7:
+		g.kind("values-through-and")
+		return r.L(sym("and"), r.L(sym("not"), r.L(sym("null"), g.Expr(TInt, env, d+1))), v)
+	case 8:
+		g.kind("values-through-when")
+		if g.pick("mvunless", 2) == 0 {
+			return r.L(sym("unless"), r.L(sym("null"), g.Expr(TInt, env, d+1)), g.Expr(TAny, env, d+1), v)
+		}
+		return r.L(sym("when"), g.Expr(TInt, env, d+1), g.Expr(TAny, env, d+1), v)
+	case 9:
+		g.kind("values-through-cond")
+		return r.L(sym("cond"), r.L(r.L(sym("null"), g.Expr(TInt, env, d+1)), g.Expr(TInt, env, d+1)), r.L(sym("t"), v))
 	case 0:
 		return r.L(sym("if"), g.Expr(TBool, env, d+1), v, r.L(sym("values"), g.Expr(TInt, env, d+1), g.Expr(TInt, env, d+1)))
 	case 1:
